@@ -144,8 +144,8 @@ def transcribe_factory(ns):
                 else:
                     ent_slots = ent.slots if isinstance(ent, SDict) else [[True, k, v] for k, v in ent.items()]
                     names = sorted(sl[1] for sl in ent_slots if not (isinstance(sl[0], bool) and not sl[0]))
-                    if names != ['other_headers', 'signature']:
-                        structural.append(f'the stored entry has exactly other_headers and signature (keyid gone), found {names}')
+                    if names not in (['other_headers', 'signature'], ['other_headers', 'see_also', 'signature']):
+                        structural.append(f'the stored entry has exactly other_headers and signature, optionally see_also (keyid gone), found {names}')
                     else:
                         d = {sl[1]: sl[2] for sl in ent_slots}
                         obs.append(oblige(eng, 'signature and headers are transcribed verbatim',
@@ -230,7 +230,7 @@ def concrete(case):
             probs = []
             if oc['kind'] == 'ret':
                 ent = signable['signatures'].get(case['q'])
-                if ent != {'other_headers': case['oh'], 'signature': case['sig']}:
+                if ent not in ({'other_headers': case['oh'], 'signature': case['sig']}, {'other_headers': case['oh'], 'signature': case['sig'], 'see_also': case['keyid']}):
                     probs.append(f'stored entry is {ent!r:.200}, expected exactly other_headers + signature under q')
                 else:
                     if CC.outcome_of(C.checkformat_gpg_signature, ent)['kind'] != 'ret':
